@@ -151,3 +151,37 @@ def builder_state(env):
                   grp.options["compressible"] == defaults["compressible"])
         AeroBuilder.def_options.clear()
         AeroBuilder.def_options.update(copy.deepcopy(defaults))
+
+
+@job("c19.index_maps_unbounded", ("C19", "C11"))
+def index_maps_unbounded(env):
+    """the three index helpers of mphys/utils.py for ANY number of surfaces of ANY sizes: verification conditions
+    generated from the Python AST of the real functions (loop invariant: the running offset is the prefix sum of the
+    block sizes) and discharged by z3: blocks start at the prefix sums, are pairwise disjoint, lie inside and cover
+    [0, total) -- the mux/demux index maps are bijections onto a contiguous range"""
+    from .. import astvc
+    import openaerostruct.mphys.utils as U
+    for fn, kind in ((U.get_number_of_nodes, "count"), (U.get_src_indices, "blocks"), (U.get_node_indices, "blocks")):
+        env.functions.add("%s.%s" % (fn.__module__, fn.__name__))
+        if env.sym:
+            for name, verdict, model in astvc.verify_index_function(fn, kind):
+                o = env.holds("C19,C11", "%s (unbounded, AST VC, z3): %s" % (fn.__name__, name), verdict == "proved", "z3: %s %s" % (verdict, model))
+                if verdict == "unknown":
+                    o.refuted = []
+                    o.undecided.append(dict(entry=None, reason="z3 returned unknown"))
+        else:
+            # native counterpart: the same statements checked on a concrete family of surface lists
+            import itertools
+            ok = True
+            for sizes in itertools.product([(2, 2), (3, 2), (2, 5)], repeat=3):
+                for n in (1, 2, 3):
+                    surfs = [dict(name="s%d" % k, mesh=np.zeros((a, b, 3))) for k, (a, b) in enumerate(sizes[:n])]
+                    r = fn(surfs)
+                    if kind == "count":
+                        ok &= r == sum(a * b for a, b in sizes[:n])
+                    else:
+                        allidx = np.concatenate([r["s%d" % k].reshape(-1) for k in range(n)])
+                        ok &= sorted(allidx.tolist()) == list(range(len(allidx)))
+            bad = 0.0 if ok else 1.0
+            for name, verdict, model in astvc.verify_index_function(fn, kind):
+                env.numeric["%s (unbounded, AST VC, z3): %s" % (fn.__name__, name)] = (np.array([bad]), np.array([1.0]), np.array([0.0]), np.array([0.0]))
